@@ -194,6 +194,12 @@ let rec goval_of_sx (x : sx) : E.goval =
   | L [ A "ptr"; v ] -> E.GPtr (goval_of_sx v)
   | L (A "nilptr" :: _) -> E.GNilPtr
   | L (A "shared" :: _) -> goval_of_sx (parse_sx "(slice (ptr (int 5)) (ptr (int 5)) (map (70 (ptr (int 5)))))")
+  | L (A "sharedptr" :: _) ->
+      goval_of_sx (parse_sx "(slice (struct (Title (str 61)) (Author (ptr (struct (Name (str 416e6e)))))) (struct (Title (str 62)) (Author (ptr (struct (Name (str 416e6e)))))))")
+  | L (A "sharedslice" :: _) ->
+      goval_of_sx (parse_sx "(struct (A (slice (str 78) (str 79))) (B (slice (str 78) (str 79))) (All (slice (slice (str 78) (str 79)) (slice (str 78) (str 79)))))")
+  | L (A "sharedmap" :: _) ->
+      goval_of_sx (parse_sx "(map (61 (map (6b (int 1)))) (62 (map (6b (int 1)))) (6c (slice (map (6b (int 1))) (map (6b (int 1))))))")
   | L (A ("chan" | "func" | "nilchan" | "nilfunc" | "complex" | "array2" | "imap" | "bmap" | "cyc" | "cycmap" | "cycslice" | "cyc2") :: _) -> E.GOther
   | _ -> failwith "unknown data value"
 
